@@ -350,6 +350,11 @@ var boundaryTemplates = []struct {
 	{"a = make([]chan int64, 1)\na[0] = make(chan int64, 3)\nb = make(chan int64, 3)\na[0] <- 1\nb <- 10\nb <- 20\nclose(a[0])\nclose(b)\nn = 0\nfor v in a[0] {\nn += v\na[0] = b\n}\nprobe(n)", []string{"(i 1)"}, ""},
 	{"s = make(struct { C chan int64 })\ns.C = make(chan int64, 3)\nb = make(chan int64, 3)\ns.C <- 1\ns.C <- 2\nb <- 10\nclose(s.C)\nclose(b)\nn = 0\nfor v in s.C {\nn += v\ns.C = b\n}\nprobe(n)", []string{"(i 3)"}, ""},
 	{"c = make(chan int64, 3)\nb = make(chan int64, 3)\nc <- 1\nc <- 2\nb <- 10\nclose(c)\nclose(b)\nn = 0\nfor v in c {\nn += v\nc = b\n}\nprobe(n)", []string{"(i 3)"}, ""},
+	// a LITERAL as a loop condition is truthy or falsy as the same value in a variable is (\"0\", \"false\", \"F\" are falsy strings)
+	{"n = 0\nfor \"0\" {\nn++\nbreak\n}\nfor \"false\" {\nn += 10\nbreak\n}\nfor \"F\" {\nn += 100\nbreak\n}\nfor \"\" {\nn += 1000\nbreak\n}\nprobe(n)", []string{"(i 0)"}, ""},
+	{"n = 0\nfor i = 0; \"false\"; i++ {\nn++\nbreak\n}\nfor i = 0; \"0.0\"; i++ {\nn += 10\nbreak\n}\nfor i = 0; 0; i++ {\nn += 100\nbreak\n}\nfor i = 0; nil; i++ {\nn += 1000\nbreak\n}\nprobe(n)", []string{"(i 0)"}, ""},
+	{"n = 0\nfor \"1\" {\nn++\nbreak\n}\nfor \"x\" {\nn += 10\nbreak\n}\nfor 2 {\nn += 100\nbreak\n}\nfor (\"t\") {\nn += 1000\nbreak\n}\nfor i = 0; \"true\"; i++ {\nn += 10000\nbreak\n}\nprobe(n)", []string{"(i 11111)"}, ""},
+	{"n = 0\nfor 0 {\nn++\nbreak\n}\nfor 0.0 {\nn += 10\nbreak\n}\nfor false {\nn += 100\nbreak\n}\nfor nil {\nn += 1000\nbreak\n}\nfor (\"0\") {\nn += 10000\nbreak\n}\nprobe(n)", []string{"(i 0)"}, ""},
 	// a loop that never started (its init statement failed, the error was caught) leaves the loops around and after it as they were
 	{"n = 0\nfor i = 0; i < 4; i++ {\ntry {\nfor j = missing(); j < 2; j++ {\n}\n} catch e {\n}\nif i == 1 {\nbreak\n}\nn++\n}\nprobe(n)", []string{"(i 1)"}, ""},
 	{"n = 0\nfor x in [1, 2, 3] {\ntry {\nfor j = 1 / nil.a; j < 2; j++ {\n}\n} catch e {\n}\nif x == 2 {\ncontinue\n}\nn += x\n}\nprobe(n)", []string{"(i 4)"}, ""},
@@ -464,6 +469,37 @@ func streamControl(o *Out, r *rand.Rand, n int, thorough bool) {
 				o.Fail(Failure{Oracle: "switch-runs-the-equal-case", Key: "switch-vs-equal:" + a + ":" + b, Input: src,
 					Detail: fmt.Sprintf("the if on == and the switch must take the same arm; trace %v err %v", res.trace, res.err)})
 			}
+		}
+	}
+	// ... also for switches with many clauses of several labels each (labels of mixed kinds): the arm taken is the first clause, in order, holding a
+	// label == says the subject equals - the same script computes that with an if / else-if chain
+	for _, subj := range swPool {
+		var sw, chain strings.Builder
+		sw.WriteString("switch " + subj + " {\n")
+		for k := 0; k+1 < len(swPool); k += 2 {
+			// the subject's own spelling is left out of every other clause list so that cross-kind labels decide
+			a, b := swPool[k], swPool[k+1]
+			fmt.Fprintf(&sw, "case %s, %s:\nprobe(%d)\n", a, b, k)
+			kw := "} else if "
+			if k == 0 {
+				kw = "if "
+			}
+			fmt.Fprintf(&chain, "%s%s == %s || %s == %s {\nprobe(%d)\n", kw, subj, a, subj, b, k)
+		}
+		sw.WriteString("default:\nprobe(-1)\n}")
+		chain.WriteString("} else {\nprobe(-1)\n}")
+		src := chain.String() + "\n" + sw.String()
+		stmt, err := parser.ParseSrc(src)
+		if err != nil {
+			o.Fail(Failure{Oracle: "control-template-parses", Key: "control-template-parse", Input: src, Detail: err.Error()})
+			continue
+		}
+		res := runVM(stmt, -1, 3*time.Second)
+		o.Sum.Evaluations++
+		o.Sum.Hist["big-switch-vs-equal"]++
+		if res.hung || res.panicked || res.err != nil || len(res.trace) != 2 || res.trace[0] != res.trace[1] {
+			o.Fail(Failure{Oracle: "switch-runs-the-equal-case", Key: "big-switch-vs-equal:" + subj, Input: src,
+				Detail: fmt.Sprintf("the if / else-if chain on == and the switch must take the same arm; trace %v err %v", res.trace, res.err)})
 		}
 	}
 	for i := 0; i < n; i++ {
